@@ -12,10 +12,10 @@ MIN_NONTRIVIAL = {"quick": 500, "thorough": 12000}
 BR = ["|r|<0.3", "0.3<=|r|<0.75", "0.75<=|r|<0.925", "|r|>=0.925"]
 REQUIRED = ["agrees with reference bivariate normal CDF to 1e-7 [%s]" % b for b in BR] + [
     "values in [0,1]", "non-decreasing in each argument", "every rectangle has non-negative mass", "tails tend to 0 and 1",
-    "marginals recovered at +40 sigma", "zero covariance => product of marginals", "norm_cdf == standard normal CDF",
+    "marginals recovered far in the upper tail", "zero covariance => product of marginals", "norm_cdf == standard normal CDF",
     "uniform == CDF of the uniform box"]
 RULE = ("one case = one (mean, variances, correlation) configuration evaluated on sorted grids of points near the mean, on the "
-        "ridges h=k and h=-k and in the far tails (|z| up to 40): r on both sides of every branch threshold +-{0.3,0.75,0.925} "
+        "ridges h=k and h=-k and in the far tails (|z| up to 40, 200, 1e3, 1e4): r on both sides of every branch threshold +-{0.3,0.75,0.925} "
         "+-{0,1e-12,1e-6,1e-3} and +-{0,0.1,0.5,0.9,0.95,0.99,0.999,1-1e-6,1-1e-9,1-1e-12}; variances 1e-6..1e6, unequal; means of "
         "either sign; called through gaussian (dispatch), bvn_cdf and sbvn_cdf. non-trivial = |r|>=0.3 with evaluation points "
         "within 6 sigma of the mean; distinct = digest of the configuration; every branch of the algorithm has its own clause "
@@ -132,7 +132,9 @@ def run_case(ctx, k, rng):
                 ctx.check("agrees with reference bivariate normal CDF to 1e-7 [%s]" % br, abs(g - a) <= 1e-7,
                           key=None, got=float(g), ref=a, h=hh, k=kk2, r=r_eff, via=via)
         # ---- structural clauses on a sorted grid ------------------------------------------------------------------
-        zs = np.unique(np.concatenate([rng.normal(0, 2, 6), [-40.0, -9.0, -3.0, 0.0, 3.0, 9.0, 40.0], rng.uniform(-7, 7, 3)]))
+        far = float(rng.choice([40.0, 40.0, 200.0, 1e3, 1e4]))     # pixel corners of a kernel much narrower than a pixel
+        zs = np.unique(np.concatenate([rng.normal(0, 2, 6), [-far, -40.0, -9.0, -3.0, 0.0, 3.0, 9.0, 40.0, far], rng.uniform(-7, 7, 3),
+                                       rng.uniform(-far, far, 2)]))
         gx, gy = mx + zs * sx, my + zs * sy
         XX, YY = np.meshgrid(gx, gy, indexing="ij")
         G = F(XX.ravel(), YY.ravel(), "gaussian").reshape(len(gx), len(gy))
@@ -148,7 +150,7 @@ def run_case(ctx, k, rng):
             ctx.check("tails tend to 0 and 1", G[0, :].max() <= EPS and G[:, 0].max() <= EPS and abs(G[-1, -1] - 1) <= EPS,
                       low=float(max(G[0, :].max(), G[:, 0].max())), high=float(G[-1, -1]), r=r_eff)
             mxm = np.max(np.abs(G[:, -1] - ndtr(zs))); mym = np.max(np.abs(G[-1, :] - ndtr(zs)))
-            ctx.check("marginals recovered at +40 sigma", max(mxm, mym) <= 1e-7, worst=float(max(mxm, mym)), r=r_eff)
+            ctx.check("marginals recovered far in the upper tail", max(mxm, mym) <= 1e-7, worst=float(max(mxm, mym)), r=r_eff)
         if cov == 0.0:
             prod = np.outer(ndtr(zs), ndtr(zs))
             ctx.check("zero covariance => product of marginals", finite and np.max(np.abs(G - prod)) <= 1e-14, worst=float(np.max(np.abs(G - prod))))
